@@ -125,12 +125,30 @@ namespace c09
             const std::string &all = w.st.storage();
             if (all.size() - before != one.size() || memcmp(all.data() + before, one.data(), one.size()) != 0)
                 kit::violate("C09/writers-disagree@serializer", "igris::serialize(obj, storage) appended %zu bytes, igris::serialize(obj) returned %zu bytes for the same value", all.size() - before, one.size());
+            // a storage that already holds bytes (a header written by the caller) is appended to, not overwritten
+            igris::string_storage pre(std::string("\x01\x02\x03", 3));
+            igris::serialize(v, pre);
+            pre.dumps(std::string("\xFE", 1));
+            const std::string &ps = pre.storage();
+            if (ps.size() != 4 + one.size() || memcmp(ps.data(), "\x01\x02\x03", 3) != 0 || memcmp(ps.data() + 3, one.data(), one.size()) != 0 || (unsigned char)ps.back() != 0xFE)
+                kit::violate("C09/writers-disagree@serializer", "serializing into a storage that already held 3 bytes gives %zu bytes, expected 3 + %zu + 1 with the prefix kept", ps.size(), one.size());
         }
         template <class T> static void get(R &r, T &v)
         {
             // the one-shot form from a string holding exactly the remaining bytes must agree with the storage form
             size_t left = (size_t)r.st.avail();
             std::string rest(r.base + (r.n - left), left);
+            {
+                // the reader storage's raw accessor: loads(k) hands out k bytes, of which only the supplied ones come from the input
+                igris::deserialize_buffer_storage tmp(igris::buffer(r.base + (r.n - left), left));
+                size_t k = (left * 7 + 3) % (left + 4);
+                std::string raw = tmp.loads(k);
+                size_t have = std::min(k, left);
+                if (raw.size() != k || memcmp(raw.data(), rest.data(), have) != 0 || (size_t)tmp.avail() != left - have)
+                    kit::violate("C09/storage-loads@serializer", "loads(%zu) on %zu remaining bytes returned %zu bytes / left the storage with %d", k, left, raw.size(), tmp.avail());
+                for (size_t i = have; i < k; i++)
+                    if (raw[i] != 0) kit::violate("C09/storage-loads@serializer", "loads(%zu) on %zu remaining bytes: byte %zu was never supplied but is not zero", k, left, i);
+            }
             v = igris::deserialize<T>(r.st);
             T one = igris::deserialize<T>(rest);
             if (!Ref<T>::eq(v, one)) kit::violate("C09/readers-disagree@serializer", "igris::deserialize<T>(string) and igris::deserialize<T>(storage) decode different values from the same bytes");
